@@ -748,3 +748,112 @@ def c13_responses(obs, case=None):
             if c["exc_type"] == "TransitionError" and c["state"] == "suspending":
                 tags.append("!engine-left-in-suspending-by-late-suspension")
     return sorted(set(tags))
+
+
+# ------------------------------------------------------------------------------------------------ interruption records (C40)
+def _docs_before_step(obs, step):
+    return sum(1 for (s, _c, _t) in obs.doc_meta if s < step)
+
+
+def c40_interruptions(obs, case=None, enabled=True):
+    tags = []
+    if obs.stuck or obs.state != "idle":
+        return tags
+    runs, _ = group_runs(obs.docs)
+    spans = {}
+    for uid, items in runs.items():
+        if uid is None:
+            continue
+        i0 = items[0][0]
+        i1 = next((i for i, n, d in items if n == "stop"), len(obs.docs))
+        spans[uid] = (i0, i1)
+    # interruption happenings: (doc count when it happened, label)
+    hap = []
+    for (old, new), meta in zip(obs.trans, obs.trans_meta):
+        if new == "pausing":
+            hap.append((meta[2], "pause"))
+    prev = None
+    for c in obs.calls:
+        if c["api"] == "resume" and prev is not None:
+            hap.append((prev["ndocs"], "resume"))
+        prev = c
+    for m, (step, _c) in zip(obs.msgs, obs.msg_meta):
+        if m.command == "_start_suspender":
+            hap.append((_docs_before_step(obs, step + 1), "suspended"))
+    for rec in event_table(obs.docs):
+        uid = rec["uid"]
+        i0, i1 = spans[uid]
+        ev = rec["emitted"].get("interruptions", [])
+        if not enabled:
+            if "interruptions" in rec["names"].values():
+                tags.append("interruptions-stream-exists-although-recording-is-disabled")
+            continue
+        exp = sorted(h for h in hap if i0 < h[0] <= i1)
+        nums = [sn for _, sn in ev]
+        if len(set(nums)) != len(nums):
+            tags.append("interruption-records-share-a-seq_num")
+        if len(ev) != len(exp):
+            # an interruption racing with the run's own close may or may not be recorded: tolerate happenings at the very edge
+            edge = [h for h in hap if h[0] in (i1, i1 + 1, i0, i0 + 1)]
+            if not (len(exp) - len(edge) <= len(ev) <= len(exp) + len(edge)):
+                tags.append("number-of-interruption-records-differs-from-pauses-suspensions-and-resumes")
+        if (rec["stop"] or {}).get("num_events", {}).get("interruptions", 0) != len(set(nums)):
+            tags.append("num_events-does-not-count-the-interruption-records")
+    return sorted(set(tags))
+
+
+# ------------------------------------------------------------------------------------------------ monitors (C41)
+def c41_monitors(obs, case=None, stream="sig_monitor", signal="sig"):
+    tags = []
+    if obs.stuck:
+        return ["engine-stuck"]
+    msgs = obs.msgs
+    # the engine's view at a given loop step, from the message log
+    def view(step):
+        monitored = suspended = False
+        open_runs = 0
+        for m, (s, _c) in zip(msgs, obs.msg_meta):
+            if s >= step:
+                break
+            c = m.command
+            if c == "open_run":
+                open_runs += 1
+            elif c == "close_run":
+                open_runs -= 1
+                monitored = False
+            elif c == "monitor" and m.obj.name == signal:
+                monitored = True
+            elif c == "unmonitor" and m.obj.name == signal:
+                monitored = False
+            elif c == "_start_suspender":
+                suspended = True
+            elif c == "_resume_from_suspender":
+                suspended = False
+        return monitored, suspended, open_runs
+
+    values = defaultdict(int)
+    for n, d in obs.docs:
+        if n == "event" and signal in d.get("data", {}):
+            values[d["data"][signal]] += 1
+    ups = [r for r in obs.reqs if r["kind"] == "update"]
+    for u in ups:
+        monitored, suspended, open_runs = view(u["step"])
+        # message boundaries are fuzzy by a step or two: only judge updates that are clearly inside or clearly outside
+        near = any(abs(s - u["step"]) <= 2 and m.command in ("monitor", "unmonitor", "close_run", "open_run", "_start_suspender", "_resume_from_suspender")
+                   for m, (s, _c) in zip(msgs, obs.msg_meta))
+        near = near or any(abs(meta[1] - u["step"]) <= 2 for (old, new), meta in zip(obs.trans, obs.trans_meta) if new in ("pausing", "paused", "running", "suspending", "idle"))
+        got = values.get(u["value"], 0)
+        if got > 1:
+            tags.append("monitor-update-reported-more-than-once")
+        if near:
+            continue
+        should = monitored and open_runs > 0 and u["state"] == "running" and not suspended
+        if should and got == 0:
+            lost_monitor = any(x[4] and 0 < x[1] <= len(msgs) and msgs[x[1] - 1].command == "monitor" for x in interruptions(obs))
+            tags.append("monitor-update-lost-while-run-open-and-running" + (":monitor-message-was-interrupted-in-flight" if lost_monitor else ""))
+        if not should and got:
+            why = "paused" if u["state"] in ("paused", "pausing") else ("suspended" if suspended else ("not-monitored" if not monitored else "no-open-run"))
+            tags.append(f"monitor-update-reported-while-{why}")
+    if obs.state == "idle" and getattr(obs.devices.get(signal), "subs", None):
+        tags.append("monitor-subscription-left-on-device-at-idle")
+    return sorted(set(tags))
